@@ -333,9 +333,9 @@ Definition write_core (ct : Z) (d : chart_data) : res chart :=
       match wk, d with
       | WCatPlain, DCat f fmt sers =>
           match sers with
-          | [] => if has_cat_axis ptag
-                  then bind (write_cat false f fmt) (fun _ => one_plot [])
-                  else one_plot []
+          | [] => (* categories.depth is evaluated for the category axis (area, bar,
+                     line) or, failing that, by the workbook writer *)
+                  bind (write_cat false f fmt) (fun _ => one_plot [])
           | _ => bind (write_cat false f fmt) (fun cx =>
                    one_plot (mapi_from 0 (fun i s => mkSer i i (cat_ser_kids pre post cx s)) sers))
           end
@@ -614,10 +614,9 @@ Definition rewrite_ser (sc : succs) (s : ser) (sd : ser_data) : ser :=
 Definition ser_datas (rk : rkind) (d1904 : bool) (d : chart_data) : res (list ser_data) :=
   match rk, d with
   | RCat, DCat f fmt sers =>
-      match sers with
-      | [] => Ok []
-      | _ => bind (write_cat d1904 f fmt) (fun cx => Ok (map (SDCat cx) sers))
-      end
+      (* without series no c:ser is rewritten, but the workbook writer still evaluates
+         categories.depth *)
+      bind (write_cat d1904 f fmt) (fun cx => Ok (map (SDCat cx) sers))
   | RXy, DXy sers =>
       Ok (map (fun s => SDXy (xs_name s) (xs_fmt s) (map fst (xs_pts s)) (map snd (xs_pts s))) sers)
   | RXy, DBub sers =>
